@@ -21,6 +21,9 @@ pub enum Size {
     OneTooMany,
     /// the per-block maximum
     BlockMax,
+    /// the per-block maximum carried entirely by the redo part / by the undo part (the longest single part a record can have)
+    BlockMaxRedoOnly,
+    BlockMaxUndoOnly,
     /// larger than any block accepts: must be rejected and change nothing
     TooLarge,
 }
@@ -131,6 +134,8 @@ impl Model {
             Size::Small => Some((0, 100)),
             Size::Medium => Some(split(10_000)),
             Size::BlockMax => Some(split(max - hdr)),
+            Size::BlockMaxRedoOnly => Some((0, max - hdr)),
+            Size::BlockMaxUndoOnly => Some((max - hdr, 0)),
             Size::TooLarge => Some(split(max - hdr + RECORD_ALIGN)),
             Size::ExactFit => {
                 let room = self.cap.checked_sub(self.fill)?;
